@@ -178,6 +178,8 @@ pub fn spec(check: &str, tier: &str) -> Option<CheckSpec> {
             base.extend(pick(fam::a_sc(1, 2, 2, 4, false), n));
             base.extend(pick(fam::stat_programs("quick").into_iter().filter(|p| p.objs.tls.contains(&true) || p.objs.lazies.contains(&true)).collect(), n));
             base.extend(fam::lock_sentinels());
+            base.extend(fam::held_lock_deadlocks());
+            base.extend(fam::chan_payload_family().into_iter().step_by(4));
             let values = [Res::V(0), Res::V(1), Res::V(2), Res::Ok(0), Res::Err(0), Res::Ok(1)];
             let mut progs = vec![];
             for b in &base {
@@ -474,6 +476,7 @@ pub fn spec(check: &str, tier: &str) -> Option<CheckSpec> {
             let mut progs = fam::leak_family();
             let (a, l1) = arc_programs(tier, true);
             progs.extend(a);
+            progs.extend(fam::chan_payload_family());
             Some(CheckSpec {
                 id: "C10",
                 level: "model_checking",
@@ -594,6 +597,7 @@ pub fn wait_programs(tier: &str) -> (Vec<Program>, String) {
         v.extend(fam::wait_family(1, 3, 2, 14, true, true, true));
         level = "WAIT: 2 children x <=2 blocks + main <=1; 3 children x 1 block + main <=1; 1 child x <=3 blocks + main <=2".to_string();
     }
+    v.extend(fam::held_lock_deadlocks());
     (v, level)
 }
 
@@ -603,13 +607,14 @@ pub fn chan_programs(tier: &str) -> (Vec<Program>, String) {
     if tier == "quick" {
         v.extend(fam::chan_family(1, 2, 3, true));
         v.extend(fam::chan_family(2, 2, 3, true));
-        level = "CHAN: 1-2 senders x <=2 sends, receiver <=3 recv/try_recv (+drop)".to_string();
+        level = "CHAN: 1-2 senders x <=2 sends, receiver <=3 recv/try_recv (+drop); messages with a loom RMW in Drop".to_string();
     } else {
         v.extend(fam::chan_family(1, 3, 4, true));
         v.extend(fam::chan_family(2, 2, 4, true));
         v.extend(fam::chan_family(3, 1, 4, true));
         v.extend(fam::chan_family(3, 2, 3, true));
-        level = "CHAN: 1-3 senders x <=3 sends, receiver <=4 recv/try_recv (+drop)".to_string();
+        level = "CHAN: 1-3 senders x <=3 sends, receiver <=4 recv/try_recv (+drop); messages with a loom RMW in Drop".to_string();
     }
+    v.extend(fam::chan_payload_family());
     (v, level)
 }
